@@ -108,18 +108,17 @@ fstart = "! start "
 fend   = "! end "
 
 _newlibrary = None
-# Names of the helpers which add_shadow_helper created for the classes
-# of the current library.
-_shadow_helpers = []
 
 
 def set_library(library):
     global _newlibrary
     _newlibrary = library
-    # The capsule helpers of the classes of a library wrapped earlier
-    # in this process are not helpers of this library.
-    while _shadow_helpers:
-        CHelpers.pop(_shadow_helpers.pop(), None)
+    # The helpers created for the types and classes of a library wrapped
+    # earlier in this process are not helpers of this library.
+    for table, static in ((CHelpers, _static_chelpers),
+                          (FHelpers, _static_fhelpers)):
+        for name in [name for name in table if name not in static]:
+            del table[name]
 
 
 def add_all_helpers():
@@ -539,8 +538,6 @@ typedef struct s_{C_type_name} {C_type_name};{cpp_endif}{lend}""".format(
         )
     )
     CHelpers[name] = helper
-    if name not in _shadow_helpers:
-        _shadow_helpers.append(name)
     return name
 
 
@@ -1606,6 +1603,10 @@ integer, parameter, private :: &
     SH_TYPE_OTHER     = 32""",
     ),
 )  # end FHelpers
+
+# The helpers which do not depend on a library.
+_static_chelpers = frozenset(CHelpers)
+_static_fhelpers = frozenset(FHelpers)
 
 
 
